@@ -102,9 +102,16 @@ def work(chunk):
             try:
                 if cfg['policy'][0] == 'model':
                     from harness import replay
-                    r = replay.replay_graph(prog, max_paths=cfg['policy'][1], collect=True)
+                    r = replay.replay_graph(prog, max_paths=cfg['policy'][1], collect=True, cancel=len(cfg['policy']) > 2)
+                    if cfg.get('liveness'):
+                        from harness import model as _model
+                        lv = _model.check_liveness(_model.export_instance(prog))
+                        r['liveness'] = {'ok': lv['ok'], 'states': lv.get('distinct', 0)}
+                        if not lv['ok']:
+                            r['model_invariants_violated'] = r['model_invariants_violated'] + ['Termination']
                     minfo.append({'prog': name, 'states': r['states'], 'transitions': r['transitions'], 'replayed': r['replayed'],
-                                  'walks': r['paths'], 'drift': r['divergence'], 'invariants_violated': r['model_invariants_violated']})
+                                  'walks': r['paths'], 'drift': r['divergence'], 'invariants_violated': r['model_invariants_violated'],
+                                  'liveness': r.get('liveness')})
                     for k, tr in enumerate(r['traces']):
                         tid = '%s|m%d.%d' % (name, ci, k)
                         c2 = dict(cfg)
@@ -285,10 +292,10 @@ def build_jobs(pid, tier, seed):
             sizes = json.load(f)
     except OSError:
         pass
-    if pid not in ('C13',):
+    if True:
         # model-guided: TLC explores spec/Engine.tla for the instance exhaustively; every transition of the model's
         # state graph is replayed on the real engine (conformance) and the walks are validated at level O
-        budget = 4000 if quick else 10 ** 9
+        budget = (1500 if pid == 'C13' else 4000) if quick else 10 ** 9
         cap = 400 if quick else 60000
         chosen = []
         for name, p, cfgs in sorted(jobs, key=lambda j: sizes.get(j[0], 10 ** 9)):
@@ -299,9 +306,13 @@ def build_jobs(pid, tier, seed):
                 break
             budget -= sz
             chosen.append(name)
-        for j in jobs:
-            if j[0] in chosen:
-                j[2].append(dict(policy=['model', 400 if quick else 100000]))
+        for k, j in enumerate(j for j in jobs if j[0] in chosen):
+            if pid == 'C13':
+                # the caller cancels at EVERY reachable state of the instance's model (CancelRun)
+                j[2].append(dict(policy=['model', 600 if quick else 100000, 'cancel']))
+            else:
+                # C02 additionally as a liveness property (fair loop => the run ends), every 4th instance when quick
+                j[2].append(dict(policy=['model', 400 if quick else 100000], liveness=(pid == 'C02' and (not quick or k % 4 == 0))))
     for p in random_programs(pid, tier, seed):
         if pid == 'C13':
             cfgs = cancel_cfgs(seed, 1 if quick else 3, 60, 4 if quick else 1) + base_cfgs(seed, 2, 0)
@@ -420,7 +431,9 @@ def run_runtime(pid, tier, seed):
                              'model_transitions_replayed_on_code': sum(m['replayed'] for m in minfo),
                              'walks': sum(m['walks'] for m in minfo),
                              'drift_instances': [m['prog'] for m in drift],
-                             'model_invariants_violated': {m['prog']: m['invariants_violated'] for m in minfo if m['invariants_violated']}},
+                             'model_invariants_violated': {m['prog']: m['invariants_violated'] for m in minfo if m['invariants_violated']},
+                             'liveness_checked': sum(1 for m in minfo if m.get('liveness')),
+                             'liveness_failed': [m['prog'] for m in minfo if m.get('liveness') and not m['liveness']['ok']]},
             'distinct_trace_signatures': sigs,
             'clauses_of_other_properties_seen': other_props,
             'known_findings_reobserved': sorted('%s: %s' % (c, w) for (c, w) in known_hits),
